@@ -10,6 +10,7 @@ import PyamgV.Proofs.ExtC12BalFirst
 import PyamgV.Proofs.ExtC12ZWrap
 import PyamgV.Proofs.ExtC12ZMeas
 import PyamgV.Proofs.ExtC12ZBalLoop
+import PyamgV.Proofs.ExtPy3AggstrLloyd
 
 /-! # C12 — aggregation routines return valid partitions of the strength graph
 
@@ -283,6 +284,38 @@ example : C12ZM.lloydAggregationQ 3 #[0,1,3,4] #[1,0,2,1] #[⟨0,2⟩, ⟨0,2⟩
     .ok (some ((#[0, 1, 2, 2], #[0, 0], #[1, 1]), #[0])) := by decide +kernel
 example : C12ZM.lloydAggregationQ 3 #[0,1,3,4] #[1,0,2,1] #[⟨-1,2⟩, ⟨0,2⟩, ⟨1,0⟩, ⟨1,0⟩] "None" (1/3) #[0,2,1] 2 =
     .error "ValueError" := by decide +kernel
+
+/-! ### extension E59: the Python wrappers as GENERATED from the working tree (harness/py2lean3_aggstr.py,
+`Generated/PyLogic3_aggstr.lean`), numerical work abstracted as events; finite grids, kernel evaluated -/
+/-- the generated `lloyd_aggregation` / `balanced_lloyd_aggregation` perform exactly the events of the specification
+`lExpected` (validation, measure table, real part, positivity check, graph, clustering call, assembly) on `lGrid` -/
+restate py_lloyd_refines_spec := PyamgV.ExtPy3AggstrP.lloyd_refines_spec
+/-- for each measure the events applied to `C.data` are exactly the documented table, and the real part of a complex
+matrix is taken AFTER the measure (of the measured data) -/
+restate py_lloyd_measure_then_real := PyamgV.ExtPy3AggstrP.lloyd_measure_then_real
+/-- AggOp is constructed with the explicit shape `(n, naggs)`, `naggs = int(min(max(ratio n, 1), n))` -/
+restate py_lloyd_aggop_shape := PyamgV.ExtPy3AggstrP.lloyd_aggop_shape
+/-- an unknown measure raises `ValueError` -/
+restate py_lloyd_unknown_measure := PyamgV.ExtPy3AggstrP.lloyd_unknown_measure
+/-- no event mutates the argument `C` (wrappers called without `pad`) -/
+restate py_lloyd_no_argument_mutation := PyamgV.ExtPy3AggstrP.lloyd_no_argument_mutation
+/-- `balanced_lloyd_aggregation(pad=p, A=A, measure='inv')`: a copy of `A` is filled with `pad`, then `C += Epad` -/
+restate py_balanced_pad_events := PyamgV.ExtPy3AggstrP.balanced_pad_events
+/-- ... which is the only argument mutation: `A` is never written, `C` is updated in place -/
+restate py_balanced_pad_mutates_only_C := PyamgV.ExtPy3AggstrP.balanced_pad_mutates_only_C
+/-- the generated `standard_aggregation` / `naive_aggregation` wrappers: validation of C, kernel call, assembly of AggOp
+with the explicit shape `(num_rows, num_aggregates)`, exactly as specified (`sExpected`) on `sGrid` -/
+restate py_simple_refines_spec := PyamgV.ExtPy3AggstrP.simple_refines_spec
+/-- neither of them mutates its argument -/
+restate py_simple_no_argument_mutation := PyamgV.ExtPy3AggstrP.simple_no_argument_mutation
+
+/-! non-vacuity (E59): the grids are not empty and contain the interesting scenarios; a complex `inv` run really
+contains `abs`, `1.0 / .`, `np.real`, in this order -/
+example : ExtPy3AggstrP.lGrid.length = 192 ∧ ExtPy3AggstrP.sGrid.length = 72 := by decide +kernel
+example : (ExtPy3AggstrP.lRun ⟨false, .inv, true, 3, "csr", 8, 1/2⟩).2.take 5 =
+    [ExtPy3AggstrP.issparseEv, ExtPy3AggstrP.unEv "abs" (.obj "C.data"), ExtPy3AggstrP.binEv "div" (.float 1) (.obj "absd"),
+     ExtPy3AggstrP.callEv "np.real" [.obj "d_inv"] [], ExtPy3AggstrP.callEv "np.ascontiguousarray" [.obj "re"] []] := by
+  kernel_rfl
 
 /-! ### interface facts regenerated from the working tree on every run (translator tie) -/
 /-- the `kernels_smoothed_aggregation` table the models assume equals the one regenerated from the source now -/
